@@ -218,8 +218,23 @@ def check_case(case):
                 # by 1/(1 - s/gamma) per inner iteration (observed: x 11 over 20 iterations): equality is not claimed
                 classes.append("nonconvex-divergence(not judged)")
             elif not same:
-                viol.append(Viol(dict(sig, kind="result-depends-on-bounds-checking"),
-                                 f"{name}: checked and unchecked runs differ: w {w1.tolist()} vs {w2.tolist()}, stop_crit {out.stop!r} vs {chk[3]!r}"))
+                # Both modes are deterministic; they differ in code generation only, and a 1-ulp difference can flip an
+                # inner `stop_crit_in <= tol_in` break or a tie between equal working-set scores (observed on the
+                # unchanged tree: two symmetric features returned swapped).  With bounds checking on, no read outside
+                # an array can go unnoticed (it raises), so what remains to be judged is "the same result up to solver
+                # tolerance": two runs that both claim convergence must agree within the theorem-backed margins.
+                tol = s["tol"]
+                both = (out.stop < tol and chk[3] < tol) if name == "FISTA" else (out.stop <= tol and chk[3] <= tol)
+                if both and np.all(np.isfinite(w1)) and np.all(np.isfinite(w2)) and w1.shape == w2.shape:
+                    from .. import metamorph as M
+                    sub = M.compare(case, w1, w2, tol, f"{name}: bounds-checked vs unchecked run", dict(sig, kind="result-depends-on-bounds-checking"), Viol, factor=4.)
+                    viol += sub
+                    classes.append("tolerance-level-divergence" if not sub else "divergence-beyond-tolerance")
+                elif w1.shape != w2.shape:
+                    viol.append(Viol(dict(sig, kind="result-depends-on-bounds-checking"),
+                                     f"{name}: checked and unchecked runs differ in shape: w {w1.shape} vs {w2.shape}"))
+                else:
+                    classes.append("budget-exhausted-trajectory-divergence(not judged)")
             nz = np.flatnonzero(np.abs(w1[:p]).reshape(p, -1).sum(1)) if w1.shape[0] >= p else []
             if len(nz) and nz[-1] == p - 1:
                 edge = True
